@@ -432,6 +432,34 @@ Fixpoint cart_v (fields : option (list name)) (nested : list Z) (n : nat) (ps : 
         rmap VList (mapM (fun row => cart_v fields nested k (zip ets row)) (rows_of ls))
   end.
 
+(* what the broadcasting code decides from the node types alone (it runs even when there are no elements):
+   all lists at one level RegularArrays of incompatible sizes is an error *)
+Definition reg_sizes_ok (ts : list ty) : res unit :=
+  let sizes := flat_map (fun t => match t with TList (Some s) _ _ => [s] | _ => [] end) ts in
+  if negb (Nat.eqb (length sizes) (length ts)) then Ok tt else
+  let m := fold_right Z.max 0 sizes in
+  if forallb (fun s => s =? m) sizes then Ok tt
+  else if forallb (fun s => (s =? m) || (s =? 1)) sizes then unspecified
+  else Err EValue.
+
+Fixpoint has_empty_rec (t : ty) : bool :=
+  match t with
+  | TNum _ | TUnk => false
+  | TList _ _ t' | TOpt t' => has_empty_rec t'
+  | TRec _ ts => match ts with [] => true | _ => existsb has_empty_rec ts end
+  | TUnion ts => existsb has_empty_rec ts
+  end.
+
+Fixpoint cart_ty (n : nat) (ts : list ty) {struct n} : res unit :=
+  if existsb is_union ts then unspecified else
+  let ts := map strip_opt1 ts in
+  if existsb (fun t => is_rec t || is_opt t || is_union t) ts then unspecified else
+  if negb (forallb is_listty ts) then (if existsb is_listty ts then unspecified else Err EValue) else
+  match n with
+  | O => if existsb (fun t => match t with TList _ (Some _) _ => true | _ => false end) ts then Err EValue else Ok tt
+  | S k => do _ <- reg_sizes_ok ts; cart_ty k (map elem_ty ts)
+  end.
+
 Definition same_axis (t0 : ty) (axis : Z) (ts : list ty) : res Z :=
   do ax <- resolve_axis t0 0 axis;
   if ax <? 0 then Err EValue else
@@ -449,6 +477,7 @@ Definition spec_cartesian (axis : Z) (nested : nested_arg) (fields : option (lis
       if negb (fields_ok (zlen arrs) fields) then Err EValue else
       if ax =? 0 then cart_entry fields nl (map (fun a : arr => Some (snd a)) arrs)
       else
+        do _ <- cart_ty (Z.to_nat (ax - 1)) (map fst arrs);
         let cols := map snd arrs in
         if list_lengths_differ cols then
           (if existsb (fun c : list value => zlen c =? 1) cols then unspecified else Err EValue)
@@ -843,6 +872,21 @@ Fixpoint conc_v (n : nat) (ps : list (ty * value)) {struct n} : res value :=
         rmap VList (mapM (fun row => conc_v k (zip ets row)) (rows_of ls))
   end.
 
+Definition is_flat_t (t : ty) : bool := let (a, b) := minmax t in (a =? 1) && (b =? 1).
+Fixpoint conc_ty (n : nat) (ts : list ty) {struct n} : res unit :=
+  if existsb is_union ts then unspecified else
+  match n with
+  | O =>
+      if forallb (fun t => match strip_opt1 t with TList _ None _ => true | _ => false end) ts then Ok tt
+      else if existsb is_flat_t ts then Err EValue else unspecified
+  | S k =>
+      if existsb is_flat_t ts then Err EValue else
+      let ts := map strip_opt1 ts in
+      if negb (forallb (fun t => match t with TList _ None _ => true | _ => false end) ts) then unspecified else
+      do _ <- reg_sizes_ok ts;
+      conc_ty k (map elem_ty ts)
+  end.
+
 (* ak.concatenate(arrays, axis): axis 0 = one array after the other; axis k >= 1 = corresponding lists at that depth *)
 Definition spec_concat_axis (axis : Z) (arrs : list arr) : res value :=
   match arrs with
@@ -858,6 +902,8 @@ Definition spec_concat_axis (axis : Z) (arrs : list arr) : res value :=
       if mixes_bool_num ts then unspecified else
       if ax =? 0 then Ok (VList (concat (map snd arrs)))
       else
+        if existsb has_empty_rec ts then unspecified else     (* a list of field-less records counts as depth 1 *)
+        do _ <- conc_ty (Z.to_nat (ax - 1)) ts;
         let cols := map snd arrs in
         if list_lengths_differ cols then
           (if existsb (fun c : list value => zlen c =? 1) cols then unspecified else Err EValue)
